@@ -402,6 +402,11 @@ def run_case(prog, cfg=None, faults=None, cleanups=None, hooks=False, record_eve
                     if f == "skipf" and getattr(ctx, "feature", None) is not None:
                         # any hook may exclude the REST of the enclosing feature (it is "already partly executed")
                         ctx.feature.skip("rest excluded by hook %s" % name)
+                    if f == "skipr":
+                        # ... or the rest of the enclosing rule (the feature when there is no rule)
+                        tgt_ = getattr(ctx, "rule", None) or getattr(ctx, "feature", None)
+                        if tgt_ is not None:
+                            tgt_.skip("rest excluded by hook %s" % name)
                     if f == "skip":
                         # user code that EXCLUDES the element concerned at run time (documented: feature/rule/scenario.skip())
                         if args and "tag" not in name and "step" not in name:
@@ -423,10 +428,12 @@ def run_case(prog, cfg=None, faults=None, cleanups=None, hooks=False, record_eve
                         raise KeyboardInterrupt()
                 hook.__name__ = name
                 return hook
+            # hooks=True: the environment provides every hook; hooks=<collection of names>: only those (an
+            # environment file usually defines a subset)
             runner.hooks = {n: make_hook(n) for n in
                             ("before_all", "after_all", "before_feature", "after_feature", "before_rule",
                              "after_rule", "before_scenario", "after_scenario", "before_step", "after_step",
-                             "before_tag", "after_tag")}
+                             "before_tag", "after_tag") if hooks is True or n in hooks}
         else:
             runner.hooks = {}
         fmts = []
